@@ -52,7 +52,7 @@ class evolve:
         if self.stepper.jac is not None and isinstance(self.stepper, step_bsimp):
             J, dfdt = self.stepper.jac(t, y0, self.stepper.args)
             LOG.append(("jac", t, np.array(J).tolist()))
-        LOG.append(("apply", type(self.stepper).__name__, t, t1, h, t + hh, [float(v) for v in y1]))
+        LOG.append(("apply", type(self.stepper).__name__, t, t1, h, t + hh, [float(v) for v in y1], [float(v) for v in y0]))
         hs = hh if SCRIPT["hsug"] is None else SCRIPT["hsug"]
         if type(self.stepper).__name__ in SCRIPT["hsug_by_stepper"]:
             hs = SCRIPT["hsug_by_stepper"][type(self.stepper).__name__]
